@@ -13,10 +13,11 @@ let parse_hdrs (t : string) : (char list * char list) list =
 
 let body_of (len : string) (dg : string) : bodytok = { blen = n_of_dec len; bdig = n_of_dec dg }
 
-let rec parse_exchange (t : string) : exchange =
+let parse_exchange (t : string) : exchange =
   match String.split_on_char ':' t with
-  | ["X"; _; _; _; _; _; _; _; _; _; _; _; _] -> parse_exchange (t ^ ":a")
-  | ["X"; m; form; pq; v10; hd; rb; rqf; st; sv10; shd; sb; rsf; rdf] ->
+  | "X" :: m :: form :: pq :: v10 :: hd :: rb :: rqf :: st :: sv10 :: shd :: sb :: rsf :: opts ->
+      let rdf = match List.find_opt (fun o -> String.length o > 0 && o.[0] = 'e') opts with Some o -> o | None -> "a" in
+      let fault = List.exists (fun o -> String.length o > 0 && o.[0] = 'f') opts in
       let rb' = match String.split_on_char '.' rb with
         | [l; _; d] -> body_of l d | _ -> failwith "bad req body" in
       let sb0 = if String.length sb > 0 && sb.[0] = 'z' then String.sub sb 1 (String.length sb - 1) else sb in
@@ -30,7 +31,7 @@ let rec parse_exchange (t : string) : exchange =
                  sframing = (match rsf.[0] with 'c' -> FCL | 'k' -> FChunked | 'x' -> FCloseDelimited | _ -> FBodiless) } in
       let rd = if rdf = "a" || rdf = "" then ReadAll
         else ReadSome (n_of_dec (String.sub rdf 1 (String.length rdf - 1))) in
-      { rq = rq; rs = rs; rd = rd }
+      { rq = rq; rs = rs; rd = rd; flt = fault }
   | _ -> failwith ("bad exchange token " ^ (if String.length t > 40 then String.sub t 0 40 else t))
 
 type pobs = { obs : conn_obs; fin : string; oerr : string list; special : string option; states : string list }
@@ -89,10 +90,12 @@ let bad_res_header (r : respmsg) (c : wire_res) : string =
   go (r.shdrs @ c.c_hdrs)
 
 let judge_res es o sv p =
-  match first_bad res_preserved_b (List.map resp_of sv) o.client_got 0 with
-  | Some (i, Some (r, c)) ->
+  match first_bad res_preserved_e sv o.client_got 0 with
+  | Some (i, Some (e, c)) ->
+      let r = resp_of e in
       let what =
-        if not c.c_complete then
+        if e.flt && c.c_status <> r.status then "origin-failed want-status=502 got=" ^ dec_of_n c.c_status
+        else if not c.c_complete then
           "client-cannot-frame-response(" ^ (match List.nth_opt p.states i with Some st -> st | None -> "?") ^ "," ^ p.fin ^ ")"
         else if c.c_status <> r.status then "status got=" ^ dec_of_n c.c_status
         else if not (body_eqb c.c_body r.sbody) then
